@@ -264,40 +264,13 @@ def natDigitsF : Nat → Nat → Bytes
 
 def natDigits (n : Nat) : Bytes := natDigitsF (n + 1) n
 
-/-- is the canonical number text in exponent form (`1e+21`, `1e-7`)? -/
-def isExpForm (t : Bytes) : Bool := t.contains 101
-
-def stripZerosR (d : Bytes) : Bytes := (d.reverse.dropWhile (· = 48)).reverse
-
-/-- `d.ddd` mantissa of `%e` -/
-def mantissa : Bytes → Bytes
-  | [] => [48]
-  | [d] => [d]
-  | d :: ds => d :: 46 :: ds
-
-def twoDigits (n : Nat) : Bytes := if n < 10 then 48 :: natDigits n else natDigits n
-
-/-- `fmt.Sprintf("%v", f)` for the float64 whose canonical plain-decimal JSON text is `t`
-    (`%g` with the shortest precision: exponent < -4 or ≥ 6 switches to `d.ddde±xx`). -/
-def fmtV (t : Bytes) : Bytes :=
-  (fun (neg : Bool) (u : Bytes) =>
-    (fun (ip fp : Bytes) =>
-      if ip = [48] then
-        -- 0.000ddd
-        (fun (lz : Nat) (sig : Bytes) =>
-          if sig = [] then t
-          else if lz ≥ 4 then (if neg then [45] else []) ++ mantissa sig ++ [101, 45] ++ twoDigits (lz + 1)
-          else t) (fp.takeWhile (· = 48)).length (fp.dropWhile (· = 48))
-      else if ip.length ≥ 7 then
-        (if neg then [45] else []) ++ mantissa (stripZerosR (ip ++ fp)) ++ [101, 43] ++ twoDigits (ip.length - 1)
-      else t) (u.takeWhile (· ≠ 46)) ((u.dropWhile (· ≠ 46)).drop 1))
-    (t.head? = some 45) (if t.head? = some 45 then t.drop 1 else t)
-
-/-- the index key of an `@id` value: strings as they are, numbers through `%v`, anything
-    else is the "must be a string or number" error -/
+/-- the index key of an `@id` value: strings as they are, numbers through
+    `strconv.FormatFloat(f, 'f', -1, 64)` — plain decimal notation, which for the number
+    texts of this model (plain decimals `json.Marshal` prints unchanged) is the text itself —
+    anything else is the "must be a string or number" error -/
 def idText : Json → Option Bytes
   | .str s => some s
-  | .num t => some (fmtV t)
+  | .num t => some t
   | _ => none
 
 abbrev Index := List (Bytes × Bytes)
